@@ -653,6 +653,11 @@ def rule_path_entries_released(ctx, rep, rid: str, only_pred) -> None:
         for c in h.own_nodes():
             if isinstance(c, ast.Call) and isinstance(c.func, ast.Attribute) and c.func.attr in ("append", "add") and isinstance(c.func.value, ast.Name) and c.func.value.id in ps and not any(isinstance(x, ast.Call) and isinstance(x.func, ast.Attribute) and x.func.attr in ("pop", "discard", "remove") and norm(x.func.value) == c.func.value.id for x in h.own_nodes()):
                 pushers[h.name] = ps.index(c.func.value.id)
+    # helpers that append to a path list kept on the object itself: name -> attribute
+    attr_pushers: Dict[str, str] = {}
+    for lst, ps_ in persistent_path_lists(ctx).items():
+        for h, _c in ps_:
+            attr_pushers[h.name] = lst
     n = 0
     for f in ctx.tree.funcs:
         if isinstance(f.node, ast.Lambda) or not only_pred(f.qual):
@@ -661,7 +666,9 @@ def rule_path_entries_released(ctx, rep, rid: str, only_pred) -> None:
         for c in f.own_nodes():
             if not isinstance(c, ast.Call):
                 continue
-            if isinstance(c.func, ast.Attribute) and c.func.attr in pushers and norm(c.func.value) in ("self", "ctx") and len(c.args) > pushers[c.func.attr] and isinstance(c.args[pushers[c.func.attr]], ast.Name):
+            if isinstance(c.func, ast.Attribute) and c.func.attr in attr_pushers and norm(c.func.value) in ("self", "ctx") and f.name not in attr_pushers:
+                pushes.append((c, attr_pushers[c.func.attr]))
+            elif isinstance(c.func, ast.Attribute) and c.func.attr in pushers and norm(c.func.value) in ("self", "ctx") and len(c.args) > pushers[c.func.attr] and isinstance(c.args[pushers[c.func.attr]], ast.Name):
                 pushes.append((c, c.args[pushers[c.func.attr]].id))
             elif isinstance(c.func, ast.Name) and c.func.id in pushers and len(c.args) > pushers[c.func.id] and isinstance(c.args[pushers[c.func.id]], ast.Name):
                 pushes.append((c, c.args[pushers[c.func.id]].id))
@@ -671,7 +678,7 @@ def rule_path_entries_released(ctx, rep, rid: str, only_pred) -> None:
             continue
         cfg = ctx.facts.cfg(f)
         for c, lst in pushes:
-            pops = {nd.id for nd in cfg.nodes if nd.ast is not None and any(isinstance(x, ast.Call) and isinstance(x.func, ast.Attribute) and x.func.attr in ("pop", "discard", "remove") and norm(x.func.value) == lst for x in ast.walk(nd.ast))}
+            pops = {nd.id for nd in cfg.nodes if nd.ast is not None and any(isinstance(x, ast.Call) and isinstance(x.func, ast.Attribute) and x.func.attr in ("pop", "discard", "remove") and norm(x.func.value).replace("ctx.", "self.") == lst for x in ast.walk(nd.ast))}
             if not pops:
                 continue  # a list that is never popped here: not a path (judged by the scope rules)
             n += 1
@@ -694,3 +701,124 @@ def rule_path_entries_released(ctx, rep, rid: str, only_pred) -> None:
             raise AnalysisError(f"{rid}: no push/pop pair and no guard context manager found in the converters")
         rep.ok(rid, "converters:path-through-context-manager", {"note": "no explicit push/pop: the path is kept by a context manager"})
         rep.ok(rid, "converters:path-through-context-manager:2", {"note": "see the context-manager cleanup rule"})
+
+
+# ---- a path list that outlives the conversion stays balanced on every exit, exceptions included ----------
+def _attr_aliases(h: Func) -> Dict[str, str]:
+    """local name -> attribute expression it aliases (`path = self._converting`)."""
+    out: Dict[str, str] = {}
+    for a in h.own_nodes():
+        if isinstance(a, ast.Assign) and len(a.targets) == 1 and isinstance(a.targets[0], ast.Name) and isinstance(a.value, ast.Attribute) and isinstance(a.value.value, ast.Name) and a.value.value.id in ("self", "ctx"):
+            out[a.targets[0].id] = norm(a.value).replace("ctx.", "self.")
+    return out
+
+
+def _list_expr(e: ast.AST, aliases: Dict[str, str]) -> Optional[str]:
+    if isinstance(e, ast.Name):
+        return aliases.get(e.id)
+    if isinstance(e, ast.Attribute) and isinstance(e.value, ast.Name) and e.value.id in ("self", "ctx"):
+        return norm(e).replace("ctx.", "self.")
+    return None
+
+
+def persistent_path_lists(ctx, modules=("context",)) -> Dict[str, List[Tuple[Func, ast.Call]]]:
+    """Attributes of a long-lived object (self.X) used as a cycle/path guard: some function appends to the attribute
+    (directly or through a local alias) and the same function scans it for the identity of, or tests membership of,
+    what it appends.  attribute -> [(function, append call)]."""
+    out: Dict[str, List[Tuple[Func, ast.Call]]] = {}
+    for h in ctx.tree.funcs:
+        if isinstance(h.node, ast.Lambda) or h.module.name not in modules:
+            continue
+        al = _attr_aliases(h)
+        for c in h.own_nodes():
+            if not (isinstance(c, ast.Call) and isinstance(c.func, ast.Attribute) and c.func.attr in ("append", "add") and len(c.args) == 1):
+                continue
+            lst = _list_expr(c.func.value, al)
+            if lst is None:
+                continue
+            item = norm(c.args[0])
+            tested = False
+            for n in h.own_nodes():
+                if isinstance(n, ast.For) and _list_expr(n.iter, al) == lst and isinstance(n.target, ast.Name):
+                    tv = n.target.id
+                    if any(isinstance(m, ast.Compare) and isinstance(m.ops[0], ast.Is) and {norm(m.left), norm(m.comparators[0])} == {tv, item} for m in ast.walk(n)):
+                        tested = True
+                if isinstance(n, ast.Compare) and isinstance(n.ops[0], (ast.In, ast.NotIn)) and _list_expr(n.comparators[0], al) == lst and norm(n.left) in (item, f"id({item})"):
+                    tested = True
+            if tested:
+                out.setdefault(lst, []).append((h, c))
+    return out
+
+
+def rule_persistent_path_balanced(ctx, rep, rid: str) -> None:
+    """A path list kept on the context (not created by the conversion that uses it) survives every exception, so it
+    has to be balanced on every way out: whoever registers a container either is still able to refuse before the
+    registration, or un-registers before refusing; and each caller un-registers in a `finally` that is entered
+    directly after the registration."""
+    rep.rule(rid, "a cycle/path list of the boundary converters that lives on the context (an attribute, not a list created by the conversion) is balanced on every exit: the function that registers a container cannot raise after the registration, and every call of it is directly followed by a try whose finally removes the entry; a path that is created per conversion needs neither", floor=1)
+    # positive control: the scanner recognises an attribute path list
+    ctl = ast.parse("class C:\n    def enter(self, c):\n        p = self._path\n        for a in p:\n            if a is c:\n                raise E()\n        p.append(c)\n")
+    fn = ctl.body[0].body[0]
+    for n_ in ast.walk(fn):
+        for ch in ast.iter_child_nodes(n_):
+            ch._parent = n_
+
+    class _F:
+        node = fn
+        module = type("M", (), {"name": "context"})
+        name = "enter"
+
+        def own_nodes(self):
+            return list(ast.walk(fn))
+
+    class _T:
+        funcs = [_F()]
+
+    if list(persistent_path_lists(type("C", (), {"tree": _T}))) != ["self._path"]:
+        raise AnalysisError(f"{rid}: positive control failed (attribute path list not recognised)")
+    lists = persistent_path_lists(ctx)
+    if not lists:
+        rep.ok(rid, "converters:path-per-conversion", {"note": "no path list is kept on a long-lived object: an exception discards the path with the conversion"})
+        return
+    for lst, pushes in sorted(lists.items()):
+        for h, c in pushes:
+            cfg = ctx.facts.cfg(h)
+            start = [nd for nd in cfg.nodes if nd.ast is not None and any(x is c for x in ast.walk(nd.ast))]
+            al = _attr_aliases(h)
+            pops = {nd.id for nd in cfg.nodes if nd.ast is not None and any(isinstance(x, ast.Call) and isinstance(x.func, ast.Attribute) and x.func.attr in ("pop", "discard", "remove") and _list_expr(x.func.value, al) == lst for x in ast.walk(nd.ast))}
+            key = f"{h.qual}:{lst}:no-refusal-after-registration"
+            late = None
+            for s in start:
+                reach = cfg.reachable([s.id], pops, None)
+                for nd in cfg.nodes:
+                    if nd.id in reach and nd.id != s.id and nd.ast is not None and isinstance(nd.ast, ast.Raise):
+                        late = nd
+            if late is not None:
+                rep.bad(rid, key, f"{h.qual} appends the container to `{lst}` (line {c.lineno}) and can still refuse it afterwards (raise at line {late.line}) without taking it off: the list lives on the context, so the entry of the refused conversion stays for good; later conversions find an unrelated container 'on their path' (acyclic values reported as circular) and lose one level of nesting budget per refusal", f"{h.module.rel}:{late.line}")
+            else:
+                rep.ok(rid, key)
+            # callers: the registration is directly followed by the try/finally that undoes it
+            if pops:
+                continue  # the function pops itself: judged by the release rule
+            for cs in ctx.cg.sites:
+                if not any(t is h for t in cs.targets):
+                    continue
+                g = cs.func
+                st = cs.call
+                while not isinstance(st, ast.stmt):
+                    st = st._parent
+                par = st._parent
+                nxt = None
+                for field in ("body", "orelse", "finalbody"):
+                    blk = getattr(par, field, None)
+                    if isinstance(blk, list) and any(q is st for q in blk):
+                        i = [k for k, q in enumerate(blk) if q is st][0]
+                        nxt = blk[i + 1] if i + 1 < len(blk) else None
+                k2 = f"{g.qual}:{short(cs.call, 30)}@{lst}:finally-follows"
+                gal = _attr_aliases(g)
+                ok = isinstance(nxt, ast.Try) and any(isinstance(x, ast.Call) and isinstance(x.func, ast.Attribute) and x.func.attr in ("pop", "discard", "remove") and _list_expr(x.func.value, gal) == lst for fb in nxt.finalbody for x in ast.walk(fb))
+                # or the call itself sits in the body of such a try and nothing before it in that body can leave
+                if ok:
+                    rep.ok(rid, k2)
+                else:
+                    rep.bad(rid, k2, f"{g.qual} registers a container with {short(cs.call, 30)} on `{lst}`, which lives on the context, and the next statement is not a try whose finally removes it: an exception in between leaves the entry behind for every later conversion", f"{g.module.rel}:{cs.call.lineno}")
